@@ -54,8 +54,9 @@ def run(chk):
                        "make_invariants and _invariants.pyx are normalised to polynomials (running counters get closed "
                        "forms by symbolic summation) and compared with the block layout [l^2, (l+1)^2) / l(l+1)+m; "
                        "the factorial table is compared with exact factorials and its length with the largest reachable index.")
-    chk.rule("R08.1", "N invariants: the slice for degree i is exactly [i^2, (i+1)^2) and consecutive blocks tile the vector", 4)
+    chk.rule("R08.1", "N invariants: the slice for degree i is exactly [i^2, (i+1)^2) and consecutive blocks tile the vector", 5)
     chk.rule("R08.2", "power spectrum: complex blocks [l^2, (l+1)^2) with divisor 2l+1; real branch pattern/weights follow the packed order", 6)
+    chk.rule("R08.4", "the invariant vector has a fixed layout: the N block first, then the P block, each at most once, whatever the spelling of kinds", 2)
     chk.rule("R08.3", "P invariants: coefficient index l(l+1)+m, loop order l2<=l1<=l with triangle test, parity split, block cap, factorial table", 80)
     if chk.want("R08.1"):
         r08_1(chk, sd)
@@ -63,8 +64,71 @@ def run(chk):
         r08_2(chk, sht)
     if chk.want("R08.3"):
         r08_3(chk, sd, inv)
+    if chk.want("R08.4"):
+        r08_4(chk, sd)
     chk.assume("rotation invariance as a numerical fact and the Clebsch-Gordan (Racah) formula itself are not decided")
     chk.assume("the installed _invariants .so may lag the .pyx source (Cython is not available to rebuild)")
+
+
+def _power_like(base: P, coef: P) -> bool:
+    """base is the elementwise |c|^2 of the coefficient vector."""
+    conj = [P.atom(("call", P.name(n), (coef,))) for n in ("numpy.conj", "numpy.conjugate")]
+    prods = [coef * c for c in conj]
+    a = base.as_atom()
+    if a and a[0] == "attr" and a[2] == "real":
+        return any(a[1] == p for p in prods)
+    if a and a[0] == "call" and call_name(a) == "numpy.real" and a[2]:
+        return any(a[2][0] == p for p in prods)
+    return base == P.atom(("call", P.name("abs"), (coef,))) ** 2
+
+
+def _accesses(term: P, coef: P):
+    """[(base, lo, hi)] for every subscript of the coefficient vector or of an array derived from it inside term."""
+    out = []
+    for a in find_atoms(term, lambda a: a[0] == "sub" and len(a[2]) == 1):
+        base = a[1]
+        if base.key() != coef.key() and not _power_like(base, coef):
+            continue
+        s = a[2][0].as_atom()
+        if s and s[0] == "slice":
+            if s[3].key() != "None":
+                raise AnalysisError(f"make_N_invariants: strided slice {P.atom(a)}")
+            out.append((base, s[1], s[2]))
+        else:
+            out.append((base, a[2][0], a[2][0] + 1))
+    return out
+
+
+def _abs2_form(A: P, coef: P, acc) -> bool:
+    """A (a top-level atom of the per-degree value) is sum |c|^2 over the accessed interval(s)."""
+    a = A.as_atom()
+    if a and a[0] == "attr" and a[2] == "real":
+        return _abs2_form_inner(a[1], coef, acc)
+    if a and a[0] == "call" and call_name(a) == "numpy.real" and a[2]:
+        return _abs2_form_inner(a[2][0], coef, acc)
+    return _abs2_form_inner(A, coef, acc, need_real=True)
+
+
+def _abs2_form_inner(X: P, coef, acc, need_real=False) -> bool:
+    a = X.as_atom()
+    bases = {b.key() for b, _, _ in acc}
+    derived = bases != {coef.key()}
+    if a and a[0] == "sub" and derived:
+        return True                                  # one entry of the |c|^2 array
+    if a and a[0] == "call" and call_name(a) in ("numpy.sum", "sum") and len(a[2]) == 1:
+        arg = a[2][0]
+        aa = arg.as_atom()
+        if derived:
+            return bool(aa and aa[0] == "sub")        # sum over a slice of the |c|^2 array
+        base, lo, hi = acc[0]
+        s0 = P.atom(("sub", coef, (P.atom(("slice", lo, hi, P.atom(("const", None)))),)))
+        conj = [P.atom(("call", P.name(n), (s0,))) for n in ("numpy.conj", "numpy.conjugate")]
+        if any(arg == s0 * c for c in conj):
+            return not need_real
+        return arg == P.atom(("call", P.name("abs"), (s0,))) ** 2
+    if a and a[0] == "call" and call_name(a) == "numpy.vdot" and len(a[2]) == 2 and a[2][0].key() == a[2][1].key():
+        return not need_real
+    return False
 
 
 def r08_1(chk, sd):
@@ -78,6 +142,7 @@ def r08_1(chk, sd):
     for e in stores:
         loop = e.loops[-1]
         chk.need(loop.kind == "range", f"{q}: degree loop is not a range loop")
+        chk.need(e.kind == "store", f"{q}: per-degree value is accumulated rather than stored")
         i = loop.index
         t = e.target.as_atom()
         chk.ob("R08.1", SD, q, "the invariant of degree i is stored at position i", bool(t and t[0] == "sub" and t[2][0] == i),
@@ -85,40 +150,51 @@ def r08_1(chk, sd):
         chk.ob("R08.1", SD, q, "degrees run over 0 .. size-1 with size = int(sqrt(len(coefficients)))",
                loop.lo == P.const(0) and loop.hi.key() == f"int(sqrt(len({coef})))", node=e.node,
                found=f"range({loop.lo}, {loop.hi})")
-        sl = slices_of(e.value, coef.key())
-        chk.need(sl, f"{q}: no slice of the coefficient vector in the per-degree sum")
-        for lo, hi, step in sl:
-            n += 1
-            exp_lo, exp_hi = i * i, (i + 1) * (i + 1)
-            ok_lo = lo == exp_lo
-            ok_hi = hi == exp_hi
-            nxt = lo.subs({i.as_atom(): i + 1})
-            chk.ob("R08.1", SD, q, "block of degree i starts at i^2 (= idx(i, -i))", ok_lo, node=e.node,
-                   fingerprint=f"start#{n}", expected=str(exp_lo), found=str(lo))
-            chk.ob("R08.1", SD, q, "block of degree i ends at (i+1)^2 (exclusive), where degree i+1 starts",
-                   ok_hi and hi == nxt, node=e.node, fingerprint=f"end#{n}", expected=str(exp_hi), found=str(hi))
-        # the summand is |c|^2 over that block
+        # decompose the per-degree value into weighted block sums
         v = e.value
-        va = v.as_atom()
-        form = None
-        if va and va[0] == "attr" and va[2] == "real":
-            inner = va[1].as_atom()
-            if inner and inner[0] == "call" and call_name(inner) in ("numpy.sum", "sum") and len(inner[2]) == 1:
-                prod = inner[2][0]
-                s0 = P.atom(("sub", coef, (P.atom(("slice",) + tuple(sl[0])),)))
-                conj = P.atom(("call", P.name("numpy.conj"), (s0,)))
-                conj2 = P.atom(("call", P.name("numpy.conjugate"), (s0,)))
-                if prod == s0 * conj or prod == s0 * conj2:
-                    form = "sum(c*conj(c)).real"
-            if inner and inner[0] == "call" and call_name(inner) == "numpy.vdot":
-                form = "vdot"
-        elif va and va[0] == "call" and call_name(va) in ("numpy.sum", "sum"):
-            arg = va[2][0]
-            s0 = P.atom(("sub", coef, (P.atom(("slice",) + tuple(sl[0])),)))
-            if arg == P.atom(("call", P.name("abs"), (s0,))) ** 2:
-                form = "sum(abs(c)**2)"
+        parts = []
+        for A in v.atoms():
+            PA = P.atom(A)
+            acc = _accesses(PA, coef)
+            if not acc:
+                raise AnalysisError(f"{q}: term {PA} of the per-degree value does not read the coefficient vector")
+            w = (v.subs({A: PA + 1}) - v).const_value()
+            if w is None:
+                raise AnalysisError(f"{q}: per-degree value is not linear in {PA}")
+            iv = {(lo.key(), hi.key()): (lo, hi) for _, lo, hi in acc}
+            parts.append((PA, w, list(iv.values()), acc))
+        chk.need(parts, f"{q}: no slice of the coefficient vector in the per-degree sum")
+        rest = v
+        for PA, w, _, _ in parts:
+            rest = rest - PA * P.const(w)
+        chk.need(rest == P.const(0), f"{q}: per-degree value has a part that is not a block sum: {rest}")
+        forms = all(len(iv) == 1 and _abs2_form(PA, coef, acc) for PA, w, iv, acc in parts)
         chk.ob("R08.1", SD, q, "the per-degree value is the sum of |c|^2 over the block (one block used for both factors)",
-               form is not None and len({(str(a), str(b)) for a, b, _ in sl}) == 1, node=e.node, found=str(v))
+               forms, node=e.node, found=str(v)[:200])
+        weights = [w for _, w, _, _ in parts]
+        chk.ob("R08.1", SD, q, "every coefficient of the degree enters with weight one (m and -m are separate coefficients)",
+               all(w == 1 for w in weights), node=e.node, fingerprint="weights", expected="1", found=str([str(w) for w in weights]))
+        # the intervals tile [i^2, (i+1)^2)
+        ivs = [x for _, _, iv, _ in parts for x in iv]
+        exp_lo, exp_hi = i * i, (i + 1) * (i + 1)
+        cur = exp_lo
+        left = list(ivs)
+        first_lo = None
+        while left:
+            nxt = [x for x in left if x[0] == cur]
+            if not nxt:
+                break
+            if first_lo is None:
+                first_lo = nxt[0][0]
+            left.remove(nxt[0])
+            cur = nxt[0][1]
+        n += 1
+        chk.ob("R08.1", SD, q, "block of degree i starts at i^2 (= idx(i, -i))", first_lo is not None, node=e.node,
+               fingerprint=f"start#{n}", expected=str(exp_lo), found=str([str(lo) for lo, _ in ivs]))
+        nxt_start = exp_lo.subs({i.as_atom(): i + 1})
+        chk.ob("R08.1", SD, q, "block of degree i ends at (i+1)^2 (exclusive), where degree i+1 starts",
+               not left and cur == exp_hi and cur == nxt_start, node=e.node, fingerprint=f"end#{n}", expected=str(exp_hi),
+               found=f"covered up to {cur}; unused pieces {[(str(a), str(b)) for a, b in left]}")
     ret = ev.returns[-1].value.as_atom()
     chk.ob("R08.1", SD, q, "the result is the square root of the per-degree sums",
            bool(ret and ret[0] == "call" and call_name(ret) == "sqrt"), found=str(ev.returns[-1].value))
@@ -156,6 +232,22 @@ def r08_2(chk, sht):
     chk.need(pat, f"{q}: real-branch 'pattern' not found")
     pterm = pat[0].value
     pa = pterm.as_atom()
+    # which layout?  A length that is both a square and a triangular number (36, 1225, ...) is ambiguous, so the decision
+    # must involve this transform's own size, not the length alone.
+    g = pat[0].guards
+    chk.need(g, f"{q}: the real branch is not under a layout test")
+    gk = g[0][0].key()
+    ga = g[0][0].as_atom()
+    lens = {f"{coef}.size", f"len({coef})", f"{coef}.shape[0]"}
+    own = bool(ga and ga[0] in ("eq", "ne") and ((ga[1].key() in lens and ga[2].key() in ("self.nplm()", "self.nlm()")) or
+                                                 (ga[2].key() in lens and ga[1].key() in ("self.nplm()", "self.nlm()"))))
+    if own:
+        real_when = (ga[0] == "eq") == ("self.nplm()" in gk)
+        own = real_when == g[0][1]
+    elif "self." in gk or "iscomplexobj" in gk:
+        raise AnalysisError(f"{q}: unrecognised layout test {g[0][0]}")
+    chk.ob("R08.2", SHT, q, "the half (real) layout is chosen exactly when the length equals this transform's nplm()", own,
+           node=pat[0].node, fingerprint="layout-test", expected=f"{coef}.size == self.nplm()", found=("" if g[0][1] else "not ") + str(g[0][0])[:160])
     okp = False
     Lp1 = None
     if pa and pa[0] == "call" and call_name(pa) == "numpy.concatenate":
@@ -305,8 +397,14 @@ def r08_3(chk, sd, inv):
         and "numpy.sign" in rets.key()
     chk.ob("R08.3", INV, q, "result = signed cube roots of Re(even) and Im(odd), concatenated", ok_parts, found=str(rets)[:200])
 
-    # make_invariants: cap at a block boundary; MAX_L_MAX vs factorial table
-    q = "make_invariants"
+    # cap at a block boundary; MAX_L_MAX vs factorial table (the capping code may live in make_invariants or a helper of it)
+    q = None
+    for cand in ["make_invariants"] + sorted(k for k in sd.funcs if k != "make_invariants"):
+        fn0 = sd.funcs[cand]
+        if any(isinstance(n, ast.Name) and n.id == "MAX_L_MAX" and isinstance(n.ctx, ast.Store) for n in ast.walk(fn0)):
+            q = cand
+            break
+    chk.need(q is not None, "make_invariants: MAX_L_MAX literal not found in shape_descriptors")
     ev = sd.ev(q)
     chk.saw(SD, q)
     maxl = None
@@ -318,9 +416,10 @@ def r08_3(chk, sd, inv):
     capguard = None
     for e in ev.events:
         if e.kind == "assign" and e.value is not None:
-            for s in slices_of(e.value, ev.param_names[1]):
-                cap = s[1].const_value()
-                capguard = e.guards
+            for pn in ev.param_names:
+                for s in slices_of(e.value, pn):
+                    cap = s[1].const_value()
+                    capguard = e.guards
     root = math.isqrt(int(cap)) if cap is not None else 0
     chk.ob("R08.3", SD, q, "the coefficient vector is capped at a block boundary (a perfect square)",
            cap is not None and root * root == cap, expected="(d+1)^2", found=str(cap))
@@ -328,7 +427,7 @@ def r08_3(chk, sd, inv):
     if capguard:
         for c, pol in capguard:
             ca = c.as_atom()
-            if ca and ca[0] == "lt" and pol and ca[1] == P.const(maxl) and ca[2].key() == ev.param_names[0]:
+            if ca and ca[0] == "lt" and pol and ca[1] == P.const(maxl) and ca[2].key() in ev.param_names:
                 guard_ok = True
     chk.ob("R08.3", SD, q, "the cap applies exactly when l_max exceeds MAX_L_MAX", guard_ok)
     # factorial table
@@ -378,3 +477,53 @@ def r08_3(chk, sd, inv):
     chk.ob("R08.3", INV, "clebsch", f"the largest factorial index reachable for l <= {eff} ({worst}) is inside the table "
            f"(length {len(vals)})", not bad and worst < len(vals) and worst >= 3 * eff + 1 - 1,
            expected=f"3*{eff}+1 = {3 * eff + 1} < {len(vals)}", found=f"{worst}; unresolved: {bad}")
+
+
+def r08_4(chk, sd):
+    """Number and ordering of the invariants are a fixed function of the maximum degree (and of which kinds are present)."""
+    q = "make_invariants"
+    ev = sd.ev(q)
+    chk.saw(SD, q)
+    ret = ev.returns[-1].value.as_atom()
+    chk.need(ret and ret[0] == "call" and call_name(ret) in ("numpy.hstack", "numpy.concatenate") and ret[2], f"{q}: result is not a concatenation")
+    parts = ret[2][0].as_atom()
+    kinds = ev.param_names[2] if len(ev.param_names) > 2 else "kinds"
+    if not (parts and parts[0] == "obj"):
+        it = seq_items(ret[2][0])
+        dyn = bool(parts and parts[0] == "comp") or any(e.loops for e in ev.events if e.kind == "call")
+        if it is None:
+            chk.ob("R08.4", SD, q, "blocks are appended in a fixed order (not in the order the caller spells kinds)", not dyn,
+                   node=ev.returns[-1].node, fingerprint="order", expected="N block, then P block", found=str(ev.returns[-1].value)[:200])
+            chk.need(dyn, f"{q}: unrecognised construction of the invariant vector: {str(ev.returns[-1].value)[:120]}")
+            chk.ob("R08.4", SD, q, "each block is present at most once", False, fingerprint="once", found="one block per character of kinds")
+            return
+    apps = [e for e in ev.events if e.kind == "call" and e.target is not None and e.target.key() == f"{P.atom(parts)}.append"]
+    chk.need(apps, f"{q}: no appends to the list of invariant blocks")
+    seq = []
+    for e in apps:
+        arg = e.extra["args"][0].as_atom()
+        cn = call_name(arg) if arg else None
+        kind = "N" if cn and cn.endswith("make_N_invariants") else "P" if cn and "p_invariants" in cn else "?"
+        g = [c.key() for c, pol in e.guards if pol]
+        member = f"(in '{kind}' {kinds})" in g
+        seq.append((kind, member, bool(e.loops), e))
+    order = [k for k, _, _, _ in seq]
+    first_p = order.index("P") if "P" in order else len(order)
+    ok_order = "?" not in order and all(k == "P" for k in order[first_p:]) and not any(lp for _, _, lp, _ in seq)
+    chk.ob("R08.4", SD, q, "blocks are appended in a fixed order (not in the order the caller spells kinds)", ok_order and all(m for _, m, _, _ in seq),
+           node=apps[0].node, fingerprint="order", expected="N block under ('N' in kinds), then P block under ('P' in kinds)",
+           found=str([(k, "guarded" if m else "unguarded", "in loop" if lp else "") for k, m, lp, _ in seq]))
+    # at most once: appends of the same kind are mutually exclusive (complementary guards)
+    def exclusive(a, b):
+        ga = {(c.key(), p) for c, p in a.guards}
+        gb = {(c.key(), p) for c, p in b.guards}
+        return any((k, not p) in gb for k, p in ga)
+    once = True
+    for kind in ("N", "P"):
+        es = [e for k, _, _, e in seq if k == kind]
+        for x in range(len(es)):
+            for y in range(x + 1, len(es)):
+                if not exclusive(es[x], es[y]):
+                    once = False
+    chk.ob("R08.4", SD, q, "each block is present at most once", once, fingerprint="once",
+           found=str([(k, [("" if p else "not ") + c.key()[:30] for c, p in e.guards]) for k, _, _, e in seq])[:300])
